@@ -455,7 +455,7 @@ def eval_combo(case, counter=None):
         # (independent of photutils' masks and bounding boxes); skipped when a pixel centre lies
         # within 1e-9 of the boundary
         nin, closest = analytic_centre_count(kind, p, pos[k][0], pos[k][1], data, mask, bkgs[k])
-        if closest > 1e-9 and sid is None and not math.isnan(E['center_aper_area']) \
+        if closest > 1e-9 and sid == 'none' and not math.isnan(E['center_aper_area']) \
                 and int(E['center_aper_area']) != nin:
             bad('center-set/differs-from-analytic-membership',
                 f'pos={pos[k]}: {int(E["center_aper_area"])} unmasked pixel centres in the centre mask, '
